@@ -5,6 +5,7 @@ and evaluates the property monitor on the implementation's answers (`MONITOR`).
 import LndModel.Prelude.Lines
 import LndModel.C06.Sha
 import LndModel.C06.ReleaseDriver
+import LndModel.C06.RecvDriver
 
 open LndModel LndModel.Lines LndModel.C06
 
@@ -18,6 +19,13 @@ structure St where
   /-- number of producer secrets the store has received, while `honest`. -/
   k : Nat := 0
   honest : Bool := false
+  /-- the whole history of the store is known from the trace: an honest prefix of `k0` producer
+      secrets, then the accepted values `vals` (position ↦ hex), `pos` = number of values. -/
+  known : Bool := false
+  k0 : Nat := 0
+  pos : Nat := 0
+  vals : List (Nat × String) := []
+  accLooks : Nat := 0
   lastEnc : Option String := none
   afterLoadOfEnc : Bool := false
   lines : Nat := 0
@@ -65,7 +73,7 @@ def step (s : St) (line : String) : IO St := do
     let root := ((kv? rest "root").bind hexBytes?).getD zeroHash
     let k0 := (kvNat? rest "k0").getD 0
     let s := { s with caseId := id, kind := (kv? rest "kind").getD "", root := root, k := k0,
-                       honest := true, lastEnc := none, afterLoadOfEnc := false,
+                       honest := true, known := true, k0 := k0, pos := k0, vals := [], lastEnc := none, afterLoadOfEnc := false,
                        cases := s.cases + 1 }
     if s.samples < 3 then
       IO.println s!"SAMPLE {line}"
@@ -82,12 +90,13 @@ def step (s : St) (line : String) : IO St := do
       let s ← if impl == "ok" then pure s else mismatch s s!"load: model=ok impl={impl}"
       -- when the harness loads an arbitrary byte string the store is no longer known honest,
       -- except for the documented honest constructions (kinds deep/foreign) and enc→load.
-      let keep := s.kind == "deep" || s.kind == "foreign" || s.lastEnc == some hx
-      return { s with store := st, honest := s.honest && keep, afterLoadOfEnc := s.lastEnc == some hx }
+      let keep := s.kind == "deep" || s.kind == "foreign" || s.kind == "subtree" || s.lastEnc == some hx
+      return { s with store := st, honest := s.honest && keep, known := s.known && keep,
+                      afterLoadOfEnc := s.lastEnc == some hx }
     | .error .short =>
-      if impl == "err" then return { s with honest := false } else mismatch s s!"load: model=err impl={impl}"
+      if impl == "err" then return { s with honest := false, known := false } else mismatch s s!"load: model=err impl={impl}"
     | .error .outOfRange =>
-      if impl == "panic" then return { s with honest := false } else mismatch s s!"load: model=panic impl={impl}"
+      if impl == "panic" then return { s with honest := false, known := false } else mismatch s s!"load: model=panic impl={impl}"
   | "add" :: hx :: _ | "addp" :: _ :: hx :: _ =>
     let s := { s with ops := s.ops + 1 }
     let some h := hexBytes? hx | mismatch s "bad hex"
@@ -114,6 +123,7 @@ def step (s : St) (line : String) : IO St := do
           s ← monitor s "reject-inconsistent" s!"k={s.k} index={startIndex - s.k} accepted a secret that is not the producer's"
     -- advance monitor bookkeeping from the implementation's answer
     if impl == "ok" then
+      s := { s with vals := (s.pos, hx) :: s.vals, pos := s.pos + 1 }
       if s.honest && isNext then
         s := { s with k := s.k + 1, honestAdds := s.honestAdds + 1,
                       deepLevels := if s.deepLevels.contains bucket then s.deepLevels else bucket :: s.deepLevels }
@@ -134,6 +144,15 @@ def step (s : St) (line : String) : IO St := do
       let want := if v < s.k then optHex (producerAt flipSha s.root v) else "none"
       if want != impl then
         s ← monitor s "reproduce" s!"k={s.k} look({v}) = {impl}, want {want}"
+    if s.known && !s.honest then
+      -- theorem store_reproduces_accepted: WHATEVER was accepted is reproduced exactly
+      let want :=
+        if v < s.k0 then optHex (producerAt flipSha s.root v)
+        else if v < s.pos then ((s.vals.find? (·.1 == v)).map (·.2)).getD "none"
+        else "none"
+      s := { s with accLooks := s.accLooks + 1 }
+      if want != impl then
+        s ← monitor s "reproduce-accepted" s!"{s.pos} values accepted (honest prefix {s.k0}); look({v}) = {impl.take 16}.., the value accepted at that position is {want.take 16}.."
     if impl == "none" then return { s with lookMiss := s.lookMiss + 1 }
     else return { s with lookHits := s.lookHits + 1 }
   | "prod" :: rhx :: v :: _ =>
@@ -176,11 +195,40 @@ def step (s : St) (line : String) : IO St := do
 
 end LndModel.C06.Driver
 
+namespace LndModel.C06.Driver
+
+/-- stream `release` carries two kinds of cases: `kind=release` (ReleaseDriver.lean) and
+    `kind=recv` (RecvDriver.lean). -/
+structure RelSt where
+  rel : LndModel.C06.ReleaseDriver.St := {}
+  rcv : LndModel.C06.RecvDriver.St := {}
+  inRecv : Bool := false
+
+def relStep (s : RelSt) (line : String) : IO RelSt := do
+  let ws := words line
+  match ws with
+  | "CASE" :: _ :: rest =>
+    if kv? rest "kind" == some "recv" then
+      return { s with inRecv := true, rcv := ← LndModel.C06.RecvDriver.step s.rcv line }
+    else
+      return { s with inRecv := false, rel := ← LndModel.C06.ReleaseDriver.step s.rel line }
+  | _ =>
+    if s.inRecv then
+      let rcv ← LndModel.C06.RecvDriver.step s.rcv line
+      return { s with rcv := rcv, inRecv := ws != ["END"] }
+    else
+      return { s with rel := ← LndModel.C06.ReleaseDriver.step s.rel line }
+
+end LndModel.C06.Driver
+
 open LndModel.C06.Driver in
 def main (args : List String) : IO Unit := do
-  -- stream `release`: fault-injection trace of the lnwallet harness (ReleaseDriver.lean)
+  -- stream `release`: fault-injection trace of the lnwallet harness (ReleaseDriver.lean) and
+  -- the receiving-half cases (RecvDriver.lean)
   if args.contains "release" then
-    LndModel.C06.ReleaseDriver.main
+    let s ← LndModel.Lines.foldStdin relStep {}
+    LndModel.C06.ReleaseDriver.report s.rel
+    LndModel.C06.RecvDriver.report s.rcv
     return
   let s ← LndModel.Lines.foldStdin step {}
   IO.println s!"STAT lines={s.lines}"
@@ -191,6 +239,7 @@ def main (args : List String) : IO Unit := do
   IO.println s!"STAT rejects={s.rejects}"
   IO.println s!"STAT look_hits={s.lookHits}"
   IO.println s!"STAT look_misses={s.lookMiss}"
+  IO.println s!"STAT looks_after_foreign_accepts={s.accLooks}"
   IO.println s!"STAT max_len_buckets={s.maxLen}"
   IO.println s!"STAT bucket_levels_written={s.deepLevels.length}"
   IO.println s!"STAT mismatches={s.mismatches}"
